@@ -30,11 +30,18 @@ func init() {
 			"propagation, call-site argument resolution, graph reachability on the extracted relation",
 		Ref: "DESIGN.md §4 C16, Appendix A.1"})
 	addMutants(
-		Mutant{Prop: "C16", Name: "revert-admindown-fix", File: "router/bfd/session.go",
-			Old: `	if remote == stateAdminDown {
-		return eventTimer
-	}
-	return event(remote)`, New: `	return event(remote)`, Expect: "T2-no-trap-state"},
+		Mutant{Prop: "C16", Name: "init-ignores-up", File: "router/bfd/fsm.go",
+			Old: `		case eventInit, eventUp:
+			return stateUp
+		case eventTimer:
+			return stateDown
+		case eventDown, eventAdminUp:
+			return stateInit`, New: `		case eventInit:
+			return stateUp
+		case eventTimer:
+			return stateDown
+		case eventDown, eventAdminUp, eventUp:
+			return stateInit`, Expect: "T1-rfc5880-table"},
 		Mutant{Prop: "C16", Name: "timer-as-down-event", File: "router/bfd/session.go",
 			Old: `s.transition(ctx, eventTimer)`, New: `s.transition(ctx, eventDown)`,
 			Expect: "T1-rfc5880-table"},
@@ -236,6 +243,50 @@ func runC16(c *Ctx) {
 		c.Check(reach(s)["Up"], "T2-no-trap-state", "bfd:state="+s, tr.Pos(),
 			fmt.Sprintf("reachable from Down under producible events {%s}; must be able to reach Up",
 				strings.Join(evs, ",")))
+	}
+	// 4b. every accepted packet re-arms the detection timer with the negotiated
+	// detection time before the state machine is driven, and the timer case drives
+	// eventTimer: the necessary condition for "a session that stops receiving goes
+	// Down after its detection time".
+	{
+		var resets []CallInfo
+		for _, ci := range run.Calls("(*time.Timer).Reset") {
+			if len(ci.Args) == 2 && wild("*DetectMultiplier*", ci.Args[1]) {
+				resets = append(resets, ci)
+			}
+		}
+		var recvTr ssa.Instruction
+		for _, ci := range calls {
+			if _, isConst := ci.In.Common().Args[2].(*ssa.Const); !isConst {
+				recvTr = ci.In.(ssa.Instruction)
+			}
+		}
+		ok := len(resets) == 1 && recvTr != nil && instrDominates(resets[0].In.(ssa.Instruction), recvTr)
+		c.Check(ok, "D2-detection-timer", "Run:rearm-before-transition", run.Fn.Pos(), fmt.Sprintf(
+			"%d detectionTimer.Reset(detect-mult × interval) call(s); must be executed on every path "+
+				"before the received state drives the state machine", len(resets)))
+		if len(resets) == 1 {
+			l := run.Leaves(resets[0].In.Common().Args[1], 0)
+			miss := leavesContainAll(l, "*.DetectMultiplier", "recv.RequiredMinRxInterval", "*.DesiredMinTxInterval")
+			c.Check(len(miss) == 0, "D2-detection-timer", "Run:detection-time-inputs", resets[0].In.Pos(),
+				fmt.Sprintf("detection time = remote detect-mult × max(local required-min-rx, remote desired-min-tx); missing %v", miss))
+			// the timer re-armed is the one whose expiry drives eventTimer
+			timerSym := resets[0].Args[0]
+			okSame := false
+			for _, b := range run.Fn.Blocks {
+				for _, in := range b.Instrs {
+					if sel, isSel := in.(*ssa.Select); isSel {
+						for _, st := range sel.States {
+							if run.S.Sym(st.Chan) == timerSym+".C" {
+								okSame = true
+							}
+						}
+					}
+				}
+			}
+			c.Check(okSame, "D2-detection-timer", "Run:same-timer-drives-expiry", resets[0].In.Pos(),
+				"the main loop selects on "+timerSym+".C")
+		}
 	}
 	// 5. discard list
 	if fn := c.Fn("router/bfd.shouldDiscard"); fn != nil {
